@@ -419,7 +419,15 @@ pub fn verify_weak_signature<R: Read>(
 
     // Perform RSA operation: signature^e mod n
     let decrypted = signature_int.modpow(&e, &n);
-    let decrypted_bytes = decrypted.to_bytes_be();
+    let mut decrypted_bytes = decrypted.to_bytes_be();
+
+    // BigUint strips leading zeros, and a PKCS#1 v1.5 block starts with 0x00: restore the
+    // full 64-byte block before checking the padding
+    if decrypted_bytes.len() < WEAK_SIGNATURE_SIZE {
+        let mut padded = vec![0u8; WEAK_SIGNATURE_SIZE - decrypted_bytes.len()];
+        padded.extend(decrypted_bytes);
+        decrypted_bytes = padded;
+    }
 
     // Verify PKCS#1 v1.5 padding
     verify_pkcs1_v15_md5(&decrypted_bytes, &hash)
